@@ -72,6 +72,15 @@ def _case(draw, tier):
                 topo = topo[:a] + [wrapper] + topo[b:]
                 labels.append("mapping_node:" + mode)
         nodes = draw(gen.permuted(topo))
+    elif prob(draw, 0.15):
+        # chained gates in a loop (an outer gate routes to an inner gate, which routes to the loop body): C03's family - the order in
+        # which gates and their targets are LISTED must not matter
+        from .c03 import _chained_gates_in_loop
+
+        nodes, labels = draw(_chained_gates_in_loop())
+        nodes = draw(gen.permuted(nodes))
+        labels = list(labels) + ["chained_gates_in_loop"]
+        map_lists = {}
     else:
         nodes, labels = draw(gen.g2_nodes(max_nodes=6))
         map_lists = {}
